@@ -393,7 +393,7 @@ theorem lexText_text_open (inp : Array UInt8) (q n : Nat) (w : Int) (dd : Bool) 
       lexText (Lexer.mk inp q q w dd ts le its) =
         some (some .leftDelim, Lexer.mk inp ((q + n : Nat) : Int) ((q + n : Nat) : Int) w' dd' ts' le' its') ∧
       its'.toList = its.toList ++ textItems inp (q : Int) ((q + n : Nat) : Int) := by
-  obtain ⟨l', lc', hr, hp⟩ := plainRun_text n (Lexer.mk inp q q w dd ts le its) 0 (by show (0 : Int) ≤ q; omega)
+  obtain ⟨l', lc', hr, hp⟩ := plainRun_text n (Lexer.mk inp q q w dd ts le its) noChar (by show (0 : Int) ≤ q; omega)
     (by show (q : Int) + n ≤ (inp.size : Int); omega)
     (by intro i hi; show TextByte (byteAt inp ((q : Int).toNat + i)) (byteAt inp ((q : Int).toNat + i + 1))
         simp only [Int.toNat_natCast]; exact htxt i hi)
@@ -420,7 +420,7 @@ theorem lexText_text_eof (inp : Array UInt8) (q n : Nat) (w : Int) (dd : Bool) (
     (htxt : ∀ i, i < n → TextByte (byteAt inp (q + i)) (byteAt inp (q + i + 1))) :
     ∃ lf, lexText (Lexer.mk inp q q w dd ts le its) = some (none, lf) ∧
       lf.items.toList = its.toList ++ textItems inp (q : Int) ((q + n : Nat) : Int) ++ [⟨.tEOF, q + n, []⟩] := by
-  obtain ⟨l', lc', hr, hp⟩ := plainRun_text n (Lexer.mk inp q q w dd ts le its) 0 (by show (0 : Int) ≤ q; omega)
+  obtain ⟨l', lc', hr, hp⟩ := plainRun_text n (Lexer.mk inp q q w dd ts le its) noChar (by show (0 : Int) ≤ q; omega)
     (by show (q : Int) + n ≤ (inp.size : Int); omega)
     (by intro i hi; show TextByte (byteAt inp ((q : Int).toNat + i)) (byteAt inp ((q : Int).toNat + i + 1))
         simp only [Int.toNat_natCast]; exact htxt i hi)
@@ -1124,7 +1124,7 @@ theorem lexText_text_cmt (inp : Array UInt8) (q n k : Nat) (w : Int) (dd : Bool)
         some (some .text, Lexer.mk inp ((q + n + k + 4 : Nat) : Int) ((q + n + k + 4 : Nat) : Int) w' dd' ts' le' its') ∧
       its'.toList = its.toList ++ textItems inp (q : Int) ((q + n : Nat) : Int) ++
         [⟨.tComment, q + n + k + 4, (inp.extract (q + n) (q + n + k + 4)).toList⟩] := by
-  obtain ⟨l', lc', hr, hp⟩ := plainRun_text n (Lexer.mk inp q q w dd ts le its) 0 (by show (0 : Int) ≤ q; omega)
+  obtain ⟨l', lc', hr, hp⟩ := plainRun_text n (Lexer.mk inp q q w dd ts le its) noChar (by show (0 : Int) ≤ q; omega)
     (by show (q : Int) + n ≤ (inp.size : Int); omega)
     (by intro i hi; show TextByte (byteAt inp ((q : Int).toNat + i)) (byteAt inp ((q : Int).toNat + i + 1))
         simp only [Int.toNat_natCast]; exact htxt i hi)
@@ -1159,7 +1159,7 @@ theorem lexText_text_cmt (inp : Array UInt8) (q n k : Nat) (w : Int) (dd : Bool)
   simp only [Nat.add_zero] at hc0
   refine ⟨1, dd3, ts3, ⟨.tComment, q + n + k + 4, (inp3.extract (q + n) (q + n + k + 4)).toList⟩,
     its3.push ⟨.tComment, q + n + k + 4, (inp3.extract (q + n) (q + n + k + 4)).toList⟩, ?_, ?_⟩
-  · show lexTextLoop _ 0 = _
+  · show lexTextLoop _ noChar = _
     rw [hlx]
     unfold afterSlashStar
     rw [next_mk inp3 (q + n + 2) _ w3 dd3 ts3 le3 its3 (byteAt inp3 (q + n + 2)) (by omega) rfl hc0.1]
